@@ -343,7 +343,11 @@ DelPathsV(v, ps) ==
           \* pass ([-1] and [2] may name the same element): with a negative index among several paths
           \* the one-by-one model below is not faithful => skip
           ELSE IF Len(s) > 1 /\ \E i \in 1..Len(s) : \E j \in 1..Len(s[i].v) : s[i].v[j].t = "num" /\ s[i].v[j].n < 0 THEN RSkip
-          ELSE DelPathsR(v, s, Len(s))
+          \* with several paths jq groups them by leading key (delpaths_sorted), so WHICH deletion
+          \* fails first is not the last-to-first order modelled here: an error among several paths
+          \* is not pinned by a recording => skip (the error of a single path is)
+          ELSE LET d == DelPathsR(v, s, Len(s))
+               IN IF Len(s) > 1 /\ d.end.k # "ok" THEN RSkip ELSE d
 
 \* tostream events of v located at path p (sequence of key values)
 RECURSIVE StreamOf(_, _)
@@ -608,13 +612,12 @@ B0(f, in, env) ==
          LET it == IterV(in)
          IN AnyAll(it.out, it.end, 1, [ast |-> [op |-> "id"], env |-> env], f = "any", 0)
     [] f = "reverse" ->
-         \* def reverse: [.[length - 1 - range(0;length)]];
+         \* jq 1.6/1.7 def reverse: [.[length - 1 - range(0;length)]].  Only the array case and the
+         \* recorded probe reverse_on_number (5 -> "Cannot index number with number") are pinned for
+         \* 1.7.1; null / "" / {} / 0 (def: []), strings and booleans are not => skip
         (CASE in.t = "arr" -> R1(Arr(RevSeq(in.v)))
-           [] in.t = "null" -> R1(Arr(<<>>))
-           [] in.t = "str" -> IF in.cp = <<>> THEN R1(Arr(<<>>)) ELSE ECannotIndex(in, NumI(0))   \* def reverse: [.[length - 1 - range(0;length)]]
-           [] in.t = "num" -> IF ~IsInt(in) THEN RSkip ELSE IF in.n = 0 THEN R1(Arr(<<>>)) ELSE ECannotIndex(in, NumI(0))
-           [] in.t = "bool" -> RMsg(<<Dump(in), M_no_length>>)
-           [] in.t = "obj" -> IF in.kv = <<>> THEN R1(Arr(<<>>)) ELSE ECannotIndex(in, NumI(0)))
+           [] in.t = "num" /\ IsInt(in) /\ in.n # 0 -> ECannotIndex(in, NumI(0))
+           [] OTHER -> RSkip)
     [] f = "sort" -> IF in.t = "arr" THEN R1(Arr(SortVals(in.v))) ELSE RMsg(<<Dump(in), M_not_sorted>>)
     [] f = "unique" ->
         (CASE in.t = "arr" -> LET g == Groups(SortPairs([i \in 1..Len(in.v) |-> <<in.v[i], in.v[i]>>]))
